@@ -1,3 +1,10 @@
--- This module serves as the root of the `Wee` library.
--- Import modules here that should be built as part of the library.
-import Wee.Basic
+-- Library root: every property module (they pull in model, spec, proofs and generated constants).
+import Wee.Props.C08
+import Wee.Props.C09
+import Wee.Props.C10Closed
+import Wee.Props.C11
+import Wee.Props.C12
+import Wee.Props.C15
+import Wee.Props.C20
+import Wee.Model.Search
+import Wee.Spec.San
